@@ -129,6 +129,10 @@ func (e *Engine) verifyFunction(fn *ssa.Function, fc *FuncContract, ifaceNames [
 		for _, r := range fc.Requires {
 			vc.assume(st, vc.evalBool(env, r))
 		}
+		for _, r := range fc.Assumes {
+			vc.assume(st, vc.evalBool(env, r))
+			vc.used["assumed invariant in "+fc.Key+": "+r.Text] = true
+		}
 		for _, l := range fc.Lets {
 			tv := env.evalTV(l.Expr)
 			act.lets[l.Name] = tv
